@@ -12,6 +12,10 @@ CORRESPONDS = sc.CORRESPONDS
 TRUSTED = sc.TRUSTED
 ASSUMPTIONS = sc.ASSUMPTIONS
 
+# debug logging formats the environment (Env.__repr__ takes the environment lock): under the controlled scheduler these
+# are extra recorded steps the model does not have - the recorded schedule changes, not the behaviour
+AMBIENT_DEBUGLOG = False
+
 
 def gen(rng, tier, run):
     return sc.gen(rng, tier, 'C03')
